@@ -570,7 +570,20 @@ struct D
 		case 25: {  // build from typed containers
 			int k = c.rng.below(NS), n = c.rng.range(0, 6);
 			Val r;
-			if (c.rng.chance(0.5)) {
+			if (c.rng.chance(0.25)) {
+				// an object literal of three members in any key order, a key possibly given twice (the later value counts)
+				std::string kk[3] = {rkey(), rkey(), rkey()};
+				int rep = c.rng.below(5);
+				if (rep == 0) kk[2] = kk[1]; else if (rep == 1) kk[2] = kk[0]; else if (rep == 2) kk[1] = kk[0];
+				int x[3] = {c.rng.range(-50, 50), c.rng.range(-50, 50), c.rng.range(-50, 50)};
+				r.t = M_OBJ; r.o.reset(new VObj);
+				for (int i = 0; i < 3; i++) { Val e; e.t = M_INT; e.d = x[i]; (*r.o)[kk[i]] = e; }
+				c.op(vf::fmt("v%d=Var{{\"%s\",%d},{\"%s\",%d},{\"%s\",%d}}", k, kk[0].c_str(), x[0], kk[1].c_str(), x[1], kk[2].c_str(), x[2]));
+				Var x0 = x[0], x1 = x[1], x2 = x[2];
+				if (c.rng.chance(0.5)) *v[k] = Var{{kk[0].c_str(), x0}, {kk[1].c_str(), x1}, {kk[2].c_str(), x2}};
+				else *v[k] = {{kk[0].c_str(), x0}, {kk[1].c_str(), x1}, {kk[2].c_str(), x2}};
+				c.count(rep <= 2 ? "object-literal.with-a-repeated-key" : "object-literal.distinct-keys");
+			} else if (c.rng.chance(0.5)) {
 				Array<int> a;
 				r.t = M_ARRAY; r.a.reset(new VArr);
 				for (int i = 0; i < n; i++) { int x = c.rng.range(-50, 50); a << x; Val e; e.t = M_INT; e.d = x; r.a->push_back(e); }
